@@ -1,11 +1,12 @@
 """Check framework: one run = translate, prove, correspond, decide, evidence (DESIGN 3.2)."""
+import hashlib, re
 import fcntl, json, os, re, sys, time, traceback, random
 from vlib import *
 
 TRUSTED_BASE = [
     "Coq 8.16.1 kernel (coqc full .vo builds; vm_compute used in reflective obligations; no native_compute); thorough tier: coqchk -o on the property files, Axioms: <none>",
     "axioms: none declared; Print Assumptions of every property theorem is compared with the allowlist (target: Closed under the global context)",
-    "translators gen/svx_grammar.py svx_keywords.py svx_wiring.py svx_statics.py (read /repo sources, emit coq/Gen/*.v); cross-checked by correspondence, fails closed",
+    "translators gen/svx_grammar.py svx_keywords.py svx_wiring.py svx_statics.py svx_lexers.py (read /repo sources, emit coq/Gen/*.v); cross-checked by correspondence, fail closed",
     "extraction: Require Extraction + ExtrOcamlBasic only (its Extract Inductive for bool, option, unit, list, prod, sumbool, sumor; no Extract Constant); OCaml 4.13.1, dune 2.9.3, ocaml/*.ml drivers",
     "correspondence harness /verif/harness (Rust, path deps on /repo, feature verif) and the Python driver/generators under /verif/gen",
     "modelled not verified: nom 7.1.3, nom_locate 4.2, nom-greedyerror 0.5, nom-packrat 0.7, nom-recursive 0.5.1, str-concat, std BTreeMap/HashMap/String/fs/Path, threads and thread_local!, rustc/LLVM",
@@ -29,6 +30,43 @@ class Violation:
         self.what, self.replay, self.found_input, self.key = what, replay, found_input, key
 
 
+# which source groups a property's behaviour lives in (for change-triggered deepening)
+SOURCE_GROUPS = {
+    "pp": ["sv-parser-pp/src/*.rs", "sv-parser/src/lib.rs", "sv-parser-error/src/*.rs"],
+    "parser": ["sv-parser-parser/src/**/*.rs", "sv-parser-syntaxtree/src/*.rs", "sv-parser-macros/src/*.rs", "sv-parser/src/lib.rs"],
+}
+DEEPEN = {"C03": ["pp"], "C04": ["pp"], "C05": ["pp"], "C06": ["pp"], "C09": ["pp"], "C10": ["pp"], "C11": ["pp"], "C18": ["pp"],
+          "C01": ["parser"], "C02": ["parser"], "C12": ["parser", "pp"], "C13": ["parser"], "C15": ["parser"], "C16": ["parser"],
+          "C07": ["parser", "pp"]}
+
+
+def group_hash(group):
+    import glob as _glob
+    h = hashlib.sha256()
+    for pat in SOURCE_GROUPS[group]:
+        for f in sorted(_glob.glob(os.path.join("/repo", pat), recursive=True)):
+            if f.endswith("tests.rs"):
+                continue
+            try:
+                src = open(f).read()
+            except OSError:
+                continue
+            src = re.sub(r"//[^\n]*", "", src)
+            h.update(re.sub(r"\s+", " ", src).encode())
+    return h.hexdigest()[:16]
+
+
+def sources_changed(pid):
+    groups = DEEPEN.get(pid)
+    if not groups or os.environ.get("VERIF_NO_DEEPEN"):
+        return False
+    try:
+        val = json.load(open(os.path.join(VERIF, "corpus", "validated-sources.json")))
+    except Exception:
+        return True
+    return any(group_hash(g) != val.get(g) for g in groups)
+
+
 class Ctx:
     def __init__(self, pid, tier, seed):
         self.pid, self.tier, self.seed = pid, tier, seed
@@ -46,7 +84,14 @@ class Ctx:
         self.notes = []
 
     def quick(self):
-        return self.tier == "quick"
+        """the sizes of the quick tier -- unless the sources this property is about are not the ones the quick sizes were
+        validated on: then the sizes of the thorough tier are used (change-triggered deepening; an unchanged tree stays quick)"""
+        if self.tier != "quick":
+            return False
+        if not hasattr(self, "_deep"):
+            self._deep = sources_changed(self.pid)
+            self.cov["sources_changed_since_validation"] = self._deep
+        return not self._deep
 
     def count(self, key, n=1):
         self.hist[key] = self.hist.get(key, 0) + n
